@@ -8,18 +8,28 @@ cd $WT || exit 2
 git status --porcelain --untracked-files=no | grep -q . && { echo "worktree dirty" >> $OUT; exit 2; }
 rundemos() { # $1 = label
   for d in $CH/demo*.rs; do
+    [ -f $d ] || continue
     n=seeded_$(basename $d .rs)
     cp $d tests/$n.rs
-    feat=""; grep -q verif_lab $d && feat="--features verif"
+    feat=""; grep -q "risinglight::verif\|verif_lab" $d && feat="--features verif"
     cargo test --offline $feat --test $n -- --test-threads 1 > $CH/confirm_$1_$(basename $d .rs).log 2>&1
-    echo "demo $(basename $d) $1: exit=$?" >> $OUT
+    rc=$?
+    echo "demo $(basename $d) $1: exit=$rc $(grep -E '^test result' $CH/confirm_$1_$(basename $d .rs).log | head -1)" >> $OUT
     rm -f tests/$n.rs
+  done
+  for d in $CH/demo*.slt; do
+    [ -f $d ] || continue
+    cargo build --offline > /dev/null 2>&1
+    RUST_BACKTRACE=0 ./target/debug/risinglight -f $d > $CH/confirm_$1_$(basename $d .slt).log 2>&1
+    rc=$?
+    echo "demo $(basename $d) $1 (CLI, in-memory): exit=$rc" >> $OUT
   done
 }
 git apply $CH/patch.diff || { echo "patch does not apply" >> $OUT; exit 2; }
 rundemos with_patch
 cargo nextest run --workspace --no-fail-fast --test-threads 4 --offline > $CH/confirm_suite.log 2>&1
-echo "suite with_patch: exit=$? $(grep -E '^\s*Summary' $CH/confirm_suite.log | tail -1)" >> $OUT
+rc=$?
+echo "suite with_patch: exit=$rc $(grep -E '^\s*Summary' $CH/confirm_suite.log | tail -1)" >> $OUT
 git checkout -- . 
 rundemos clean
 cat $OUT
